@@ -117,6 +117,7 @@ type ndRun struct {
 	stats     ndStats
 
 	lp        *ndLatePay
+	sw        *ndPropSwap
 	fatal     string
 	decisions []string
 	replay    []string
